@@ -796,7 +796,7 @@ fn main() {
                 tl_c03(&args, &mut rep, sc(20_000.0, 600_000.0));
             }
             if args.engine_enabled("tl") {
-                tl_random(&args, &mut rep, prop, sc(10_000.0, 300_000.0));
+                tl_random(&args, &mut rep, prop, sc(20_000.0, 400_000.0));
             }
             // abandoned and failing gets at full speed on several threads: the figures at rest afterwards
             if args.engine_enabled("th_race") {
@@ -811,7 +811,7 @@ fn main() {
                 }
             }
             if args.engine_enabled("tl") {
-                tl_random(&args, &mut rep, prop, sc(20_000.0, 600_000.0));
+                tl_random(&args, &mut rep, prop, sc(40_000.0, 800_000.0));
             }
         }
         "C10" => {
@@ -819,10 +819,10 @@ fn main() {
                 tl_c10_table(&args, &mut rep);
             }
             if args.engine_enabled("tl") {
-                tl_random(&args, &mut rep, prop, sc(10_000.0, 300_000.0));
+                tl_random(&args, &mut rep, prop, sc(20_000.0, 400_000.0));
             }
             if args.engine_enabled("utl") {
-                utl_random(&args, &mut rep, prop, sc(10_000.0, 300_000.0));
+                utl_random(&args, &mut rep, prop, sc(20_000.0, 400_000.0));
             }
             if args.engine_enabled("rt_real") {
                 rt_real(&args, &mut rep, sc(16.0, 400.0).max(1));
@@ -830,7 +830,7 @@ fn main() {
         }
         _ => {
             if args.engine_enabled("tl") {
-                tl_random(&args, &mut rep, prop, sc(20_000.0, 600_000.0));
+                tl_random(&args, &mut rep, prop, sc(40_000.0, 800_000.0));
             }
             if matches!(prop, "C01" | "C02" | "C06" | "C07" | "C09" | "C11") {
                 if args.engine_enabled("th_sweep") {
@@ -850,7 +850,7 @@ fn main() {
             // promised of the unmanaged pool's get() as well
             if prop == "C02" {
                 if args.engine_enabled("utl") {
-                    utl_random(&args, &mut rep, prop, sc(10_000.0, 300_000.0));
+                    utl_random(&args, &mut rep, prop, sc(20_000.0, 400_000.0));
                 }
                 if args.engine_enabled("uth_race") {
                     th_race(&args, &mut rep, prop, sc(200.0, 6000.0), true, false);
@@ -863,7 +863,7 @@ fn main() {
                 th_race(&args, &mut rep, prop, sc(300.0, 12_000.0), false, false);
             }
             if prop == "C11" && args.engine_enabled("utl") {
-                utl_random(&args, &mut rep, prop, sc(10_000.0, 300_000.0));
+                utl_random(&args, &mut rep, prop, sc(20_000.0, 400_000.0));
             }
             if prop == "C11" && args.engine_enabled("uth_race") {
                 th_race(&args, &mut rep, prop, sc(300.0, 12_000.0), true, false);
